@@ -27,14 +27,26 @@ World::~World() {
 	g_assertSink = nullptr;
 }
 
-bool World::wants(const char* prop) const { return lens == "ALL" || lens == prop; }
+// Under the memory-safety lens the model-free structural oracles of C01 / C03 / C07 / C19 / C14 run as corruption detectors: an out-of-bounds write
+// that stays inside the instance is invisible to the sanitizers but shows as a registry that disagrees with the callbacks delivered, a malformed
+// configuration, broken task links or a damaged payload.
+static bool corruptionDetector(const std::string& oracle) {
+	return oracle == "C01.wellformed" || oracle == "C03.balance" || oracle == "C03.lifecycle" || oracle == "C07.links" || oracle == "C19.pool" || oracle == "C14.intact";
+}
+bool World::wants(const char* prop) const {
+	if (lens == "ALL" || lens == prop) return true;
+	if (lens == "C11") { const std::string p(prop); return p == "C01" || p == "C03" || p == "C07" || p == "C19" || p == "C14"; }
+	return false;
+}
 
 void World::violate(const std::string& oracle, const std::string& detail, int node, const std::string& tag) {
 	if (!wants(propertyOf(oracle).c_str())) return;
+	const bool borrowed = lens == "C11" && propertyOf(oracle) != "C11";
+	if (borrowed && !corruptionDetector(oracle)) return;
 	if (result.violations.size() >= 8) return;
 	const std::string& t2 = tag.empty() ? circumstance : tag;
 	if (!t2.empty() && plan.wp.avoid.count(t2)) { probe(("known:" + tag).c_str()); return; }   // documented finding, announced by its reproducer
-	Violation v; v.oracle = oracle; v.detail = detail; v.tag = t2; v.opIndex = opIndex; v.node = node;
+	Violation v; v.oracle = borrowed ? "C11.corruption" : oracle; v.detail = borrowed ? "internal state corrupted [" + oracle + "] " + detail : detail; v.tag = t2; v.opIndex = opIndex; v.node = node;
 	result.violations.push_back(v);
 }
 
